@@ -746,3 +746,29 @@ Definition step05c (s : s05c) (e : ev) : option s05c :=
   end.
 
 Definition C05_calls_ok (t : list ev) : bool := fold_mon step05c (fun s => nil_b (y_owed s)) i05c t.
+
+(* ------------------------------------------------------------------ *)
+(** * C16 split by object kind (C16_ok = C16_flags_ok && the at-most-once monitor of every kind: C16Proofs.v) *)
+
+(* the release monitor of C16 restricted to the object kinds selected by [K]: events about other kinds are ignored *)
+Definition step16k (K : N -> bool) (live : list (N * N)) (e : ev) : option (list (N * N)) :=
+  let live1 := match created16 e with Some p => if K (fst p) then p :: live else live | None => live end in
+  match consumed16 e with
+  | Some p => if K (fst p) then (if p_mem p live1 then Some (p_remove p live1) else None) else Some live1
+  | None => Some live1
+  end.
+
+Definition C16_once_ok (K : N -> bool) (t : list ev) : bool := fold_mon (step16k K) (fun _ => true) [] t.
+
+(* no leak report, no "impossible" code, no use of a freed actor cell *)
+Definition flag16 (e : ev) : bool :=
+  match e with
+  | ELeak _ _ => false
+  | EBad c => negb (N.leb 900 c)
+  | EModel c _ => negb (N.eqb c M_UAF)
+  | _ => true
+  end.
+Definition C16_flags_ok (t : list ev) : bool := forallb flag16 t.
+
+(* closures, actor values, user Rets, termination notifiers *)
+Definition K16_lin (k : N) : bool := N.eqb k LK_CLO || N.eqb k LK_VAL || N.eqb k LK_RET || N.eqb k LK_NOTIFY.
